@@ -87,12 +87,26 @@ StreamOk(S, off, size, got) ==
   /\ Len(got) = StreamLen(S, off, size)
   /\ \A j \in 1..Len(got) : got[j] \in Allowed(S, off + j - 1)
 
+(* KNOWN FINDING C17-stream-skips-holes: StreamContent writes the bytes of the chunk
+   views one after the other and nothing for the holes between / after them, so a
+   window that contains a hole yields a shorter stream with the later bytes shifted *)
+RECURSIVE CoveredFrom(_, _, _)
+CoveredFrom(S, i, stop) ==
+  IF i >= stop THEN <<>>
+  ELSE (IF Covering(S, i) # {} THEN <<i>> ELSE <<>>) \o CoveredFrom(S, i + 1, stop)
+StreamSkipsHoles(S, off, size, got) ==
+  LET P == CoveredFrom(S, off, off + StreamLen(S, off, size)) IN
+  /\ Len(P) < StreamLen(S, off, size)            \* only when the window has a hole
+  /\ Len(got) = Len(P)
+  /\ \A j \in 1..Len(P) : got[j] \in Allowed(S, P[j])
+
 (* ---------------- actions ---------------- *)
 Init == top = <<>> /\ data = <<>> /\ fsize = 0 /\ hist = <<>>
 
 View(off, size, views) == ViewOk(Flat(top), off, size, views) /\ UNCHANGED <<top, data, fsize>>
 ReadAt(off, n, got, nret, err) == ReadOk(Flat(top), off, n, got, nret, err) /\ UNCHANGED <<top, data, fsize>>
 Stream(off, size, got) == StreamOk(Flat(top), off, size, got) /\ UNCHANGED <<top, data, fsize>>
+StreamDev(off, size, got) == StreamSkipsHoles(Flat(top), off, size, got) /\ UNCHANGED <<top, data, fsize>>
 
 (* compaction of the data chunks of the top level: kept and garbage partition
    them, the manifests stay, the content is the same *)
